@@ -197,8 +197,13 @@ def run_case(ctx, case):
                     pb["show_progbar"] = True        # the progress display changes nothing about what is reported
                     ctx.count("searches_with_a_progress_bar")
                 fn_args, missing = xyzpy.find_missing_cases(ds, ignore_dims=spelled, method=method, **pb)
+                fds = ds
             else:
-                fn_args, missing = None, None
+                # the search over ONE variable (a DataArray): its own dimensions, its own nulls
+                fds = obj.to_dataset(name="only")
+                ign_ = [d for d in ignore if d in obj.dims]
+                fn_args, missing = xyzpy.find_missing_cases(obj, ignore_dims=ign_ or None, method=method)
+                ctx.count("searches_over_a_dataarray")
     except Exception as e:
         ctx.violation(case, "find_missing_cases raised %r" % (e,), dict(sig, **exc_sig(e)))
         ctx.observe(case, nontrivial=False)
@@ -206,12 +211,12 @@ def run_case(ctx, case):
     bad = []
     nmiss = nloc = 0
     if fn_args is not None:
-        want_args = [d for d in ds.dims if d not in ignore]
+        want_args = [d for d in fds.dims if d not in ignore]
         if sorted(fn_args) != sorted(want_args):
             bad.append("searched dimensions %s, expected %s (ignore_dims=%r)" % (list(fn_args), want_args, spelled))
         else:
-            grid = list(itertools.product(*[ds[a].values.tolist() for a in fn_args]))
-            want = [loc for loc in grid if brute_missing(ds, dict(zip(fn_args, loc)), method)]
+            grid = list(itertools.product(*[fds[a].values.tolist() for a in fn_args]))
+            want = [loc for loc in grid if brute_missing(fds, dict(zip(fn_args, loc)), method)]
             nloc, nmiss = len(grid), len(want)
             got = [tuple(x.item() if isinstance(x, np.generic) else x for x in m) for m in missing]
             wk = [tuple(map(probe._cv, w)) for w in want]
